@@ -741,7 +741,11 @@ func replayOne(b *build, path string) (*failRec, string) {
 	if bin == "" {
 		return nil, "replay needs a build that was not prepared"
 	}
-	res := runWorker(workerJob{bin: bin, race: rf.Race, procs: rf.Procs, args: []string{"-replay", path, "-corpus", b.corpus, "-sites", b.sites}, timeout: 5 * time.Minute})
+	rargs := []string{"-replay", path, "-corpus", b.corpus, "-sites", b.sites}
+	if rp := filepath.Join(scratch, "ref.json"); fileExists(rp) {
+		rargs = append(rargs, "-ref", rp)
+	}
+	res := runWorker(workerJob{bin: bin, race: rf.Race, procs: rf.Procs, args: rargs, timeout: 5 * time.Minute})
 	if res.timedOut {
 		return nil, "replay timed out"
 	}
@@ -761,6 +765,34 @@ func replayOne(b *build, path string) (*failRec, string) {
 	return nil, ""
 }
 
+func fileExists(p string) bool {
+	_, err := os.Stat(p)
+	return err == nil
+}
+
+// ensureRef makes the C12 reference table if the replayed property needs one.
+func ensureRef(prop string, b *build) string {
+	if prop != "C12" {
+		return ""
+	}
+	if b.plain == "" {
+		return "C12 replay needs the plain build"
+	}
+	ref, herr := makeRef(b.plain, b, specs["C12"])
+	if herr != "" {
+		return herr
+	}
+	jb, _ := json.Marshal(ref)
+	return errString(os.WriteFile(filepath.Join(scratch, "ref.json"), jb, 0o644))
+}
+
+func errString(err error) string {
+	if err != nil {
+		return err.Error()
+	}
+	return ""
+}
+
 func replayCmd(path string) int {
 	raw, err := os.ReadFile(path)
 	if err != nil {
@@ -775,7 +807,11 @@ func replayCmd(path string) int {
 	if err := json.Unmarshal(raw, &rf); err != nil {
 		die("bad replay file: %v", err)
 	}
-	b := prepare(rf.Race, !rf.Race)
+	b := prepare(rf.Race, !rf.Race || rf.Property == "C12")
+	if msg := ensureRef(rf.Property, b); msg != "" {
+		fmt.Fprintln(os.Stderr, "simcheck: replay trouble:", msg)
+		return 2
+	}
 	fr, herr := replayOne(b, path)
 	if herr != "" {
 		fmt.Fprintln(os.Stderr, "simcheck: replay trouble:", herr)
